@@ -10,7 +10,8 @@ Added in round 4: a refresh rule of the configuration is evaluated per request, 
 clean-up tools set a fixed threshold; the bulk creator keeps the do-not-cache mark (C13.i).
 Added in round 5: task time before the refresh_before option of the cache (C13.j); zoned thresholds
 (C13.k); redis write time (C13.l); per-cache refresh_all (C13.m, shared C12.l); sqlite time
-convention (C13.n, shared C12.e); a single-colour tile is always linked anew (C13.o)."""
+convention (C13.n, shared C12.e); a single-colour tile is always linked anew (C13.o).
+Added in round 6: the sqlite cache reads the age of a tile with image from the database (C13.p)."""
 import ast
 
 from ..engine import rule
